@@ -54,6 +54,16 @@ def pipe_job(j):
     return {"recs": recs}
 
 
+def budget_key(text):
+    """identity of a budget violation.  One mechanism is recorded as a known finding (DESIGN 14): the front-end and the checker
+    walk the *tree* of a term whose DAG shares sub-terms, so n repetitions of `DUP1 <binary op>` cost 2^n.  Such a block is
+    identified by its shape (nothing but repetitions of DUP1 OP for one binary OP); any other block keeps its own key."""
+    toks = text.split()
+    if len(toks) >= 20 and len(toks) % 2 == 0 and set(toks[0::2]) == {"DUP1"} and len(set(toks[1::2])) == 1 and toks[1] in F.BINARY:
+        return "budget:doubling-chain (DUP1 OP)^n, n >= 10"
+    return "budget:%s" % text
+
+
 POISON = "PUSH deadbeef"
 
 
@@ -199,6 +209,12 @@ def main():
     texts += F.f_rule_triples(both)[:: (4 if tier == "quick" else 1)]
     texts += F.deep_stack_blocks()
     texts += F.f_mem((2,), deltas=[0, 32])[::4]
+    texts += F.f_rule_existing()[:: (6 if tier == "quick" else 1)]
+    texts += F.f_mid_terminal()
+    texts += F.f_long_partition() if tier == "thorough" else F.f_long_partition(lengths=(23, 31, 47), max_stores=2)
+    texts += F.f_mem_consuming()
+    growth = F.f_growth_chains(ns=(10, 14, 18, 22) if tier == "thorough" else (10, 16, 22), ops=("ADD", "MUL", "AND", "SUB") if tier == "thorough" else ("ADD", "AND"))
+    texts += growth
     texts = list(dict.fromkeys(texts))
     osets = [gasol.optset("none", "gas", True, True, "greedy"), gasol.optset("none", "size", True, False, "greedy"),
              gasol.optset("storage", "gas", False, True, "greedy"), gasol.optset("partition", "length", True, True, "greedy")]
@@ -233,14 +249,14 @@ def main():
         else:
             if "recs" not in r:
                 kind = [k for k in r if k.startswith("harness")]
-                rep.violation("budget:%s" % j[1], "block exceeds the CPU/memory budget or kills the worker (%s) [options %s]" % (kind, on),
+                rep.violation(budget_key(j[1]), "block exceeds the CPU/memory budget or kills the worker (%s) [options %s]" % (kind, on),
                               {"options": o, "input": j[1]})
                 continue
             for rec in r["recs"]:
                 blocks += 1
                 slowest = max(slowest, rec["secs"])
                 if rec["bad"]:
-                    rep.violation("pipeline:%s" % rec["text"], rec["bad"] + " [options %s]" % on, {"options": o, "input": rec["text"]})
+                    rep.violation(budget_key(rec["text"]) if "budget" in rec["bad"] else "pipeline:%s" % rec["text"], rec["bad"] + " [options %s]" % on, {"options": o, "input": rec["text"]})
     rep.coverage = {
         "explanation": "kernel: %d obligations (raise paths and integer-size obligations of evaluate_expression, "
                        "evaluate_expression_ter, apply_transform over all operands), %d discharged by z3; %d blocks through the "
